@@ -406,7 +406,12 @@ def run_plan(ctx, rng, plan, pending):
     """run one session; a failure is first reduced to the shortest session that still shows the same finding"""
     import random
     found = []
-    run_plan_inner(ctx, rng, plan, pending, found)
+    try:
+        run_plan_inner(ctx, rng, plan, pending, found)
+    except Exception as e:  # noqa — frames of a shape the analysis cannot even take apart: an observation about the library, not a crash
+        if not found:
+            found.append((f'the session wrote frames the analysis could not take apart ({err_name(e)}: {e!s:.100})',
+                          dict(plan_to_replay(plan), finding='analysis-raises')))
     if not found:
         return
     what, rep = found[0]
@@ -565,7 +570,11 @@ def run_plan_inner(ctx, rng, plan, pending, found):
             except Exception as e:  # noqa
                 found.append((f'read-back frame {k}: cannot take the collection ({err_name(e)})', dict(rep, finding='readback-decode')))
                 continue
-            exp = expected_collection(ver, d, st, fr)
+            try:
+                exp = expected_collection(ver, d, st, fr)
+            except Exception as e:  # noqa
+                found.append((f'read-back frame {k}: not of the shape 8=<version>|9=<n>|… ({err_name(e)})', dict(rep, finding='readback-decode', frame=fr.hex())))
+                continue
             if name != d['name'] or coll != exp:
                 found.append((f'read-back frame {k}: decoded {name} {coll} != sent {d["name"]} {exp}', dict(rep, finding='readback-decode', frame=fr.hex())))
             if skip != (d['type'] == '0') or stop != (d['type'] == '5'):
@@ -585,6 +594,10 @@ def replay(ctx, path):
         return
     plan = plan_from_replay(rep)
     pending = []
+    # process history matters for class-level state: in a run, sessions of both versions share one process; the replay therefore
+    # first lets a session of the OTHER version log on (its findings, if any, are reported too)
+    other = dict(fresh_plan(plan), v='50' if plan['v'] == '44' else '44', sends=[], bad=[], hb_wait=0.0)
+    run_plan(ctx, ctx.rng, other, [])
     run_plan(ctx, ctx.rng, plan, pending)
     print('session', VERSIONS[plan['v']], 'logon', plan['logon'])
     if 'frame' in rep:
